@@ -488,41 +488,71 @@ func c20EndToEnd(c *fw.Ctx) {
 	defer cl.Close()
 	ctx, cancel := context.WithTimeout(context.Background(), 120*time.Second)
 	defer cancel()
-	ins, err := cl.NewInserter(ctx, "inbound")
-	if err != nil {
-		c.Inconclusive("inserter: %v", err)
-		return
-	}
-	sent := 0
-	for i := range points {
-		p := &points[i]
-		if len(p.Dims) == 0 || len(p.Vals) == 0 {
-			continue // the rpc insert handler rejects empty maps by design
+	// the points go over the transport in 1-4 batches (one inserter session each). Points with an empty dimension
+	// or value map are sent too: the rpc insert handler rejects exactly those (and reports them), which must not
+	// affect the other points of the batch - in particular when the rejected point is the first of its batch.
+	nBatches := 1 + r.Intn(4)
+	per := (len(points) + nBatches - 1) / nBatches
+	sentTotal := 0
+	for bi := 0; bi < nBatches; bi++ {
+		lo, hi := bi*per, (bi+1)*per
+		if hi > len(points) {
+			hi = len(points)
 		}
-		if err := insertPoint(emb, "inbound", p); err != nil {
-			c.Violate("insert-error", "%v", err)
-			return
+		if lo >= hi {
+			break
 		}
-		vals := p.Vals
-		if err := ins.Insert(p.TS, p.Dims, func(cb func(string, interface{})) {
-			for k, v := range vals {
-				cb(k, v)
+		batch := append([]ref.Point(nil), points[lo:hi]...)
+		if r.Intn(2) == 0 {
+			bad := ref.Point{TS: batch[0].TS, Dims: map[string]interface{}{"s": "a"}, Vals: map[string]interface{}{}}
+			if r.Intn(2) == 0 {
+				bad = ref.Point{TS: batch[0].TS, Dims: map[string]interface{}{}, Vals: map[string]interface{}{"x": 1.0}}
 			}
-		}); err != nil {
-			c.Violate("c20-rpc-insert-error", "rpc insert failed: %v", err)
+			batch = append([]ref.Point{bad}, batch...)
+			c.Obs("rpc_batches_starting_with_a_rejected_point", 1)
+		}
+		ins, err := cl.NewInserter(ctx, "inbound")
+		if err != nil {
+			c.Inconclusive("inserter: %v", err)
 			return
 		}
-		sent++
+		sent, valid := 0, 0
+		wantErr := map[int]bool{}
+		for i := range batch {
+			p := &batch[i]
+			malformed := len(p.Dims) == 0 || len(p.Vals) == 0
+			if !malformed {
+				if err := insertPoint(emb, "inbound", p); err != nil {
+					c.Violate("insert-error", "%v", err)
+					return
+				}
+				valid++
+			} else {
+				wantErr[sent] = true
+			}
+			vals := p.Vals
+			if err := ins.Insert(p.TS, p.Dims, func(cb func(string, interface{})) {
+				for k, v := range vals {
+					cb(k, v)
+				}
+			}); err != nil {
+				c.Violate("c20-rpc-insert-error", "rpc insert failed: %v", err)
+				return
+			}
+			sent++
+		}
+		report, err := ins.Close()
+		if err != nil || report == nil {
+			c.Violate("c20-rpc-insert-report", "closing the rpc inserter of a batch of %d points (%d of them with an empty dimension or value map, first point malformed: %v) failed: %v", sent, len(wantErr), wantErr[0], err)
+			return
+		}
+		if report.Received != sent || report.Succeeded != valid || len(report.Errors) != len(wantErr) {
+			c.Violate("c20-rpc-insert-report", "insert report %+v for a batch of %d points of which %d are well-formed (first point malformed: %v)", report, sent, valid, wantErr[0])
+			return
+		}
+		sentTotal += valid
 	}
-	report, err := ins.Close()
-	if err != nil || report == nil {
-		c.Violate("c20-rpc-insert-report", "closing the rpc inserter failed: %v", err)
-		return
-	}
-	if report.Received != sent || report.Succeeded != sent || len(report.Errors) != 0 {
-		c.Violate("c20-rpc-insert-report", "insert report %+v, but %d valid points were sent", report, sent)
-		return
-	}
+	sent := sentTotal
 	if !emb.WaitCaughtUp(quiesceTimeout) || !rem.WaitCaughtUp(quiesceTimeout) {
 		c.Inconclusive("ingestion did not catch up")
 		return
